@@ -18,7 +18,7 @@ SPEC = {
                    "PyMatterSim.reader.lammps_reader_helper:read_lammps",
                    "PyMatterSim.reader.dump_reader:DumpReader.read_onefile"],
     "floors": {"frames": 300, "types": 300, "positions_bitwise": 100, "positions_mapped": 100,
-               "positions_wrapped": 50, "cell": 300, "sample_files": 5},
+               "positions_wrapped": 50, "cell": 300, "sample_files": 5, "reader_object_reread": 20, "empty_frames": 3},
     "insitu": (),
     "rule": ("writer model: truth drawn first, text emitted under LAMMPS conventions; classes {2D,3D} x {x,xs,xu} x "
              "{ortho,tri+,tri-,tri mixed,tri0} x atom order {sorted,reversed,random} x 1..5 frames x origins x number "
@@ -31,6 +31,9 @@ SPEC = {
 }
 
 
+READERS = {}
+
+
 def one_file(ctx, rng, path, via_class):
     from PyMatterSim.reader.dump_reader import DumpReader
     from PyMatterSim.reader.lammps_reader_helper import read_lammps_wrapper
@@ -39,7 +42,7 @@ def one_file(ctx, rng, path, via_class):
     d = int(rng.choice([2, 3]))
     coord = str(rng.choice(["x", "xs", "xu"]))
     cellkind = str(rng.choice(["ortho", "ortho", "tri+", "tri-", "tri", "tri0"]))
-    nframes = int(rng.choice([1, 1, 2, 3, 5]))
+    nframes = int(rng.choice([1, 1, 2, 3, 5, 2, 3, 8, 1, 30]))
     order = str(rng.choice(["sorted", "reversed", "random", "random"]))
     fmt = str(rng.choice(["repr", "g", "e", "f"]))
     origin_kind = str(rng.choice(["zero", "neg", "large", "asym", "centred"]))
@@ -50,13 +53,17 @@ def one_file(ctx, rng, path, via_class):
     K = int(rng.integers(1, 6))
     N0 = int(rng.choice([1, 2, 3, 5, 8, 13, 21, 40]))
     vary_n = rng.random() < 0.15
-    ts = np.sort(rng.choice(np.array([0, 1, 7, 100, 2500, 10 ** 6, 10 ** 9, 123456789]), size=nframes, replace=False))
+    if nframes <= 8:
+        ts = np.sort(rng.choice(np.array([0, 1, 7, 100, 2500, 10 ** 6, 10 ** 9, 123456789]), size=nframes, replace=False))
+    else:
+        ts = int(rng.choice([0, 5000])) + 250 * np.arange(nframes)
     if nframes > 1 and rng.random() < 0.3:
         # restarts and reset_timestep: equal consecutive timesteps and timesteps going backwards are frames like any other
         ts = rng.choice(np.array([0, 0, 100, 100, 2500, 7]), size=nframes, replace=True)
     frames = []
     for _k in range(nframes):
-        N = N0 if not vary_n else int(rng.integers(1, 30))
+        # atom count changing between frames, down to an empty frame (LAMMPS writes "0" atoms when the dumped group is empty)
+        N = N0 if not vary_n else int(rng.integers(0, 30))
         frames.append(gd.gen_frame_truth(rng, d, coord, cellkind, N, K, fmt, origin_kind))
     text, _extras = gd.emit(rng, frames, [int(t) for t in ts], order, extra, spurious_z, flags, ws)
     with open(path, "w") as f:
@@ -69,11 +76,23 @@ def one_file(ctx, rng, path, via_class):
              sample={"order": order, "nframes": nframes, "timesteps": ts, "head": text[:600]})
     key = f"read_lammps/{coord}/{'triclinic' if cellkind != 'ortho' else 'orthogonal'}"
     if via_class:
+        # history: half of the reads through the class re-use ONE long-lived reader object per dimension; the file behind its
+        # name has been rewritten since the last read (a running simulation appends frames, a scratch name is reused), so
+        # every read_onefile() must return what the file holds now
+        reuse = bool(rng.random() < 0.5)
+
         def go():
-            r = DumpReader(path, ndim=d, filetype=DumpFileType.LAMMPS)
+            if reuse:
+                r = READERS.get(d)
+                if r is None:
+                    r = READERS[d] = DumpReader(path, ndim=d, filetype=DumpFileType.LAMMPS)
+                else:
+                    ctx.count("reader_object_reread")
+            else:
+                r = DumpReader(path, ndim=d, filetype=DumpFileType.LAMMPS)
             r.read_onefile()
             return r.snapshots
-        ok, snaps = ctx.call(key, go, data=info)
+        ok, snaps = ctx.call(key + ("/reread_same_object" if reuse else ""), go, data=info)
     else:
         ok, snaps = ctx.call(key, read_lammps_wrapper, path, d, data=info)
     if not ok:
@@ -86,6 +105,8 @@ def one_file(ctx, rng, path, via_class):
         return
     for k, (fr, s) in enumerate(zip(frames, snaps.snapshots)):
         N = fr["N"]
+        if N == 0:
+            ctx.count("empty_frames")
         ctx.check("frames", s.timestep == int(ts[k]) and s.nparticle == N, key + "/header",
                   lambda: f"frame {k}: timestep {s.timestep} (file {ts[k]}), nparticle {s.nparticle} (file {N})", info)
         pt = np.asarray(s.particle_type)
